@@ -19,7 +19,7 @@ const (
 
 // lie says that an announced uncompressed size differs from the real stream.
 type lie struct {
-	Class string `json:"class"` // zero | minus1 | plus1 | huge   (declared = 0, actual-1, actual+1, 2^40)
+	Class string `json:"class"` // zero | minus1 | plus1 | huge | sign | max  (declared = 0, actual-1, actual+1, 2^40, 2^63, 2^64-1)
 	Where string `json:"where"` // cd | local | both
 }
 
@@ -31,6 +31,10 @@ func (l *lie) value(actual int) uint64 {
 		return uint64(actual - 1)
 	case "plus1":
 		return uint64(actual + 1)
+	case "sign":
+		return 1 << 63 // negative once converted to int64
+	case "max":
+		return 1<<64 - 1
 	default:
 		return 1 << 40
 	}
@@ -146,7 +150,7 @@ func (a *archive) traits() traits {
 	cl := map[string]bool{}
 	scan(a.Kids, &t, cl)
 	var l []string
-	for _, c := range []string{"zero", "minus1", "plus1", "huge"} {
+	for _, c := range []string{"zero", "minus1", "plus1", "huge", "sign", "max"} {
 		if cl[c] {
 			l = append(l, c)
 		}
